@@ -585,7 +585,7 @@ def run_h3(ctx, uftrace, known):
                 "matches_prefix_model_%s" % F_ARGS: is_prefix,
                 "theorem": "c18_callbacks_eq_replay" if mon else None,
                 "options": cmd_opts(case), "UFTRACE_FUNCS": case["funcs"], "lang": case["lang"],
-                "tasks": case["tasks"], "payloads": case["payloads"],
+                "tasks": case["tasks"], "payloads": case["payloads"], "case": case,
                 "script_output": out1[:3000], "replay_output": out2[:3000], "stderr": (err1 + err2)[-500:],
                 "model_input": mlines[4 * i], "model_output": mout[4 * i], "model_shown": mout[4 * i + 2],
                 "other_problems": [p[1] for p in problems][:5],
@@ -787,6 +787,7 @@ def run_h1(ctx, known):
                 "matches_prefix_model_%s" % F_EXITHOOK: is_prefix,
                 "theorem": "c18_record_time_paired" if mon else None,
                 "env": mcgen.to_env(c["opts"]), "UFTRACE_ARGS (script function list)": c["funcs"],
+                "model_setup": [l for l in mlines[a1 - 12:a1] if l.startswith("H")][-8:],
                 "ops": c["ops"], "impl": impl, "model_fixed": m_fixed, "model_prefix": m_pre,
                 "stderr": r["stderr"][-500:],
             }, no_failing_input=not mon)
@@ -940,6 +941,49 @@ def run(ctx):
 
 
 def replay(ctx, path):
+    """re-run the recorded case on the current tree and print both sides"""
     r = json.load(open(path))
-    print(json.dumps(r, indent=1))
+    print(json.dumps({k: r.get(k) for k in ("kind", "what", "finding", "theorem", "options", "UFTRACE_FUNCS", "lang", "env")}, indent=1))
+    if "case" in r:                      # analysis-time case
+        okm, log = ctx.make()
+        uftrace = os.path.join(ctx.src, "uftrace")
+        if not okm:
+            print("snapshot build failed:", log[-1000:])
+            return 2
+        case = r["case"]
+        case["payloads"] = [(k, tuple(v)) for k, v in case["payloads"]]
+        case["tasks"] = [dict(t, recs=[tuple(x) for x in t["recs"]]) for t in case["tasks"]]
+        d = os.path.join(ctx.scratch, "replay-dir")
+        sp = write_case(case, d)
+        opts = cmd_opts(case)
+        _, out1, err1 = D.run_uftrace(uftrace, "script", d, ["-S", sp] + opts)
+        _, out2, err2 = D.run_uftrace(uftrace, "replay", d, ["-f", "duration,tid,addr,time"] + ([] if case["merge"] else ["--no-merge"]) + opts)
+        m = C.run_model("C18", [model_line(case, "RUN", 1), model_line(case, "RUN", 0), model_line(case, "SHOW", 1)])
+        print("---- uftrace script", " ".join(opts)); print(out1 + err1)
+        print("---- uftrace replay", " ".join(opts)); print(out2 + err2)
+        print("---- model (repaired)   :", m[0]); print("---- model (pre-fix args):", m[1]); print("---- model shown lines   :", m[2])
+        cbs, _ = canon_script(out1)
+        same = cbs == canon_model(case, m[0], case["lang"] == "lua")
+        print("script output %s the model" % ("matches" if same else "DIFFERS from"))
+        return 0 if same else 1
+    if "ops" in r and "env" in r:        # record-time case
+        from lib import h1
+        exe, log = h1.build(ctx, "normal", driver="h1_c18_driver.c", out="h1c18")
+        if exe is None:
+            print("harness build failed:", log[-1000:])
+            return 2
+        spath = os.path.join(ctx.scratch, "c18hook.testing")
+        open(spath, "w").write("# uftrace script testing\n")
+        env = dict(r["env"], UFTRACE_BUFFER="1048576", UFTRACE_SCRIPT=spath)
+        if "UFTRACE_LOCATION" in env:
+            env["UFTRACE_LOCATION"] = env["UFTRACE_LOCATION"].replace("h1_driver.c", "h1_c18_driver.c")
+        fl = r.get("UFTRACE_ARGS (script function list)") or []
+        if fl:
+            patt = env.get("UFTRACE_PATTERN", "regex")
+            env["UFTRACE_ARGS"] = "\n".join(("^%s$" if patt == "regex" else "%s") % ("g_big" if f == 8 else "f%d" % f) for f in fl)
+        res = h1.run(ctx, exe, env, r["ops"], 0)
+        for op, l, a, b in zip(r["ops"], res["lines"][1:], r.get("model_fixed", []), r.get("model_prefix", [])):
+            print("%-12s | %-40s | model %-28s | pre-fix model %s" % (op, l, a, b))
+        return 0
+    print(json.dumps(r, indent=1)[:4000])
     return 0
